@@ -98,6 +98,15 @@ func (r *run) readerJoin(f *focus, e Ev) *readerCall {
 	if len(req.PushPullPacks) == 0 {
 		return nil
 	}
+	if g.Chance(1, 6) {
+		// an application with many datatypes: one message with 17-24 more packs (subscriptions to keys
+		// nobody has created: each is refused on its own, the message is answered as a whole)
+		for i, n := 0, g.Range(17, 24); i < n; i++ {
+			req.PushPullPacks = append(req.PushPullPacks, &model.PushPullPack{DUID: g.UID(), Key: fmt.Sprintf("nokey-%d", i), Type: model.TypeOfDatatype_COUNTER,
+				Option: uint32(model.PushPullBitReadOnly | model.PushPullBitSubscribe), CheckPoint: &model.CheckPoint{}})
+		}
+		r.probe("observer-request-with-many-packs")
+	}
 	ncalls := len(w.tr.calls)
 	ep := &endpoint{t: w.tr, name: rd.name}
 	rc := &readerCall{done: make(chan callResult, 1), req: req}
